@@ -484,6 +484,26 @@ func derivesAny(v ssa.Value, p core.VPred) bool {
 					return true
 				}
 			}
+		case *ssa.Alloc:
+			// a local array / variadic argument list: what is stored into it or into its elements
+			if y.Referrers() != nil {
+				for _, ref := range *y.Referrers() {
+					switch z := ref.(type) {
+					case *ssa.Store:
+						if z.Addr == ssa.Value(y) && walk(z.Val, d+1) {
+							return true
+						}
+					case *ssa.IndexAddr:
+						if z.Referrers() != nil {
+							for _, r2 := range *z.Referrers() {
+								if st, ok := r2.(*ssa.Store); ok && st.Addr == ssa.Value(z) && walk(st.Val, d+1) {
+									return true
+								}
+							}
+						}
+					}
+				}
+			}
 		case *ssa.BinOp:
 			return walk(y.X, d+1) || walk(y.Y, d+1)
 		case *ssa.UnOp:
